@@ -309,7 +309,7 @@ impl<'a> IpSlice<'a> {
                                 use crate::err::ipv6_exts::HeaderSliceError as I;
                                 match err {
                                     I::Len(mut err) => {
-                                        err.len_source = LenSource::Ipv6HeaderPayloadLen;
+                                        err.len_source = len_source;
                                         err.layer_start_offset += Ipv6Header::LEN;
                                         Len(err)
                                     }
